@@ -51,6 +51,11 @@ def hostile_pdus():
         ('fc08-no-data', b'\x08\x00'),
         ('fc08-one-byte', b'\x08'),
         ('fc2b-mei-0d', b'\x2b\x0d\x01\x00'),
+        # MEI types that are also diagnostic sub-function numbers (Force Listen Only = 4, Clear Counters = 10)
+        ('fc2b-mei-04', b'\x2b\x04\x01\x00'),
+        ('fc2b-mei-0a', b'\x2b\x0a\x01\x00'),
+        ('fc2b-mei-01', b'\x2b\x01\x00\x00'),
+        ('fc08-sub-0e', b'\x08\x00\x0e\x00\x00'),
         ('fc2b-readcode9', b'\x2b\x0e\x09\x00'),
         ('fc2b-readcode0', b'\x2b\x0e\x00\x00'),
         ('fc2b-short', b'\x2b\x0e'),
